@@ -358,9 +358,9 @@ Proof.
       * assert (B : b <> 13 /\ b <> 10).
         { apply (rejects_crlf_byte (tok_is TT_Backslash)); [split; reflexivity|]. unfold tok_is. rewrite E. reflexivity. }
         destruct r as [|c r'].
-        -- rewrite quoted_special_eof. split; [reflexivity|]. exists [b]. split; [reflexivity|].
+        -- rewrite quoted_escape_is_special, quoted_special_eof. split; [reflexivity|]. exists [b]. split; [reflexivity|].
            apply crlf_free_cons; try tauto. apply crlf_free_nil.
-        -- destruct (is_quoted_special (tok_of_byte c)) eqn:S.
+        -- rewrite quoted_escape_is_special. destruct (is_quoted_special (tok_of_byte c)) eqn:S.
            ++ destruct (rejects_crlf_byte _ c quoted_special_crlf S) as [C1 C2].
               assert (H := IH (length r') ltac:(subst n; cbn; lia) r' eq_refl).
               destruct (p_quoted_loop r') as [|k a|v r''].
